@@ -156,7 +156,7 @@ def choose(m, kind, rng, width):
 # one operation with its own contract
 # ---------------------------------------------------------------------------------------------------------------------------
 class Outcome:
-    __slots__ = ('obj', 'expect', 'hmap', 'must', 'hmode', 'fresh', 'sources', 'problems', 'raised', 'note')
+    __slots__ = ('obj', 'expect', 'hmap', 'must', 'hmode', 'fresh', 'sources', 'problems', 'raised', 'note', 'stereo')
 
     def __init__(self, obj):
         self.obj = obj          # molecule the history continues on
@@ -169,6 +169,7 @@ class Outcome:
         self.problems = []
         self.raised = None
         self.note = None
+        self.stereo = None      # expected stereo labels ({atom: sign}, {pair: sign}) where the operation must keep them
 
 
 def _has_aromatic(m):
@@ -194,6 +195,7 @@ def apply_op(m, op):
     atoms0, bonds0 = gstate(m)
     out = Outcome(m)
     raw0 = V.raw_snapshot(m)
+    st_a, st_b = V.stereo_labels(m)
     try:
         if kind == 'add_atom':
             n = m.add_atom(op[1])
@@ -203,6 +205,7 @@ def apply_op(m, op):
             atoms0[n] = (z, None, 0, False)
             out.expect = (atoms0, bonds0)
             out.must = {n}
+            out.stereo = (st_a, st_b)  # an isolated new atom changes no centre
         elif kind == 'add_bond':
             _, a, b, o = op
             m.add_bond(a, b, o)
@@ -266,12 +269,14 @@ def apply_op(m, op):
                 out.problems.append(('atomic:backup-kept', '_backup is not None after a failed transaction'))
             out.expect = (atoms0, bonds0)
             out.hmode = 'same'
+            out.stereo = (st_a, st_b)
         elif kind == 'remap':
             mp = dict(op[1])
             m.remap(mp)
             out.expect = ({mp[n]: v for n, v in atoms0.items()}, {frozenset(mp[x] for x in k): v for k, v in bonds0.items()})
             out.hmap = {v: k for k, v in mp.items()}
             out.hmode = 'same'
+            out.stereo = ({mp[n]: v for n, v in st_a.items()}, {frozenset(mp[x] for x in k): v for k, v in st_b.items()})
         elif kind in ('union_or', 'union_inplace'):
             other = parse(op[1])
             oraw = V.raw_snapshot(other)
@@ -293,6 +298,8 @@ def apply_op(m, op):
             out.obj = u
             out.expect = (ea, eb)
             out.hmode = 'same'
+            osa, osb = V.stereo_labels(other)
+            out.stereo = ({**st_a, **{mp[n]: v for n, v in osa.items()}}, {**st_b, **{frozenset(mp[x] for x in k): v for k, v in osb.items()}})
             h0 = hstate(m) if u is not m else None
             out.note = ('union', {mp[n]: h for n, h in oh.items()})
             if V.snapshot_diff(oraw, V.raw_snapshot(other)):
@@ -306,6 +313,8 @@ def apply_op(m, op):
             out.obj = s
             out.expect = ({n: v for n, v in atoms0.items() if n in keep}, {k: v for k, v in bonds0.items() if k <= keep})
             out.must = set(keep)  # recalculate_hydrogens=True (default): "calculate implicit H count in substructure"
+            if all(set(m._bonds[n]) <= keep for n in keep):  # whole components (what split() does): every centre keeps its environment
+                out.stereo = ({n: v for n, v in st_a.items() if n in keep}, {k: v for k, v in st_b.items() if k <= keep})
             out.fresh = [('source', m)]
             out.sources = [('substructure-source', m)]
         elif kind == 'copy':
@@ -313,6 +322,7 @@ def apply_op(m, op):
             out.obj = c
             out.expect = (atoms0, bonds0)
             out.hmode = 'same'
+            out.stereo = (st_a, st_b)
             d = V.snapshot_diff(raw0, V.raw_snapshot(c))
             for f in d:
                 out.problems.append((f'independent:copy-differs-{f}', f'copy differs from source in {f}'))
@@ -333,6 +343,7 @@ def apply_op(m, op):
             out.expect = (atoms0, bonds0)
             out.hmode = 'total'
             out.note = ('total', th)
+            out.stereo = (st_a, st_b)  # signs refer to the heavy neighbours, which do not change
             if k != sum(h0.values()):
                 out.problems.append(('frame:explicify-count', f'returned {k}, hydrogens {sum(h0.values())}'))
             for n, h in hstate(m).items():
@@ -352,6 +363,7 @@ def apply_op(m, op):
                           {e: v for e, v in bonds0.items() if not (e & gone)})
             out.hmode = 'total'
             out.note = ('total', th)
+            out.stereo = (st_a, st_b)
         elif kind == 'kekule':
             arom = {n for e, o in bonds0.items() if o == 4 for n in e}
             m.kekule()
@@ -553,7 +565,7 @@ def probe_transaction(obj):
     return out
 
 
-def probe_destructive(obj):
+def probe_destructive(obj, full=True):
     """usable: edits outside a transaction and a committed transaction work (obj is not needed afterwards)"""
     try:
         a = next(iter(obj._atoms))
@@ -566,6 +578,11 @@ def probe_destructive(obj):
         obj.delete_atom(y)
     except Exception as e:
         return [(f'editable:{type(e).__name__}', f'edit probe raised {type(e).__name__}: {e}')], None
+    if not full:  # cheap invariants only (the probe's own operations are members of the alphabet and fully checked there)
+        p = [('adjacency', d) for d in V.adjacency_defects(obj)]
+        if obj._changed is not None or obj._backup is not None:
+            p.append(('state:_changed-pending', 'pending change set or backup left after the edit probe'))
+        return p, None
     p, calc, _ = coherence(obj)
     return p, calc
 
@@ -618,6 +635,11 @@ def step(st, op, reads, on_copy, full=True, check_names=None):
         if g[1] != out.expect[1]:
             diff = [sorted(e) for e in set(g[1]) | set(out.expect[1]) if g[1].get(e) != out.expect[1].get(e)]
             probs.append((f'frame:bonds@{tag}', f'bonds {diff[:5]} differ from the expected result of {op_text(op)}'))
+    if out.stereo is not None and not out.raised:
+        got = V.stereo_labels(obj)
+        if got != out.stereo:
+            lost = sorted(set(out.stereo[0]) - set(got[0])) + [sorted(e) for e in set(out.stereo[1]) - set(got[1])]
+            probs.append((f'frame:stereo@{tag}', f'stereo labels changed by {op_text(op)}: lost {lost[:4]}, expected {_short(out.stereo)} got {_short(got)}'))
     names = None if full else check_names
     p, calc, views = coherence(obj, names)
     if p and out.raised and out.note and out.note[0] == 'documented-exception':
@@ -711,7 +733,7 @@ def _descend(res, name, smi, st, ops, reads, copies, depth, widths, on_copy_firs
     if probs:
         return  # shortest failing prefix: do not extend a failing history
     if len(ops) >= depth:
-        p, _ = probe_destructive(st1.cur)
+        p, _ = probe_destructive(st1.cur, full=rng.random() < .125)
         for f, d in p:
             _record(res, f + '@edit-probe-after-' + (op[0][2:] if op[0].startswith('x_') else op[0]), d, name, smi, ops, reads, copies)
         return
@@ -811,19 +833,19 @@ def bounded(run):
     _imports()
     from bounded.domains import corpus_smiles, rnd
     quick = run.tier == 'quick'
-    depth = 3 if quick else 4
-    widths = (3, 2, 1) if quick else (3, 2, 1, 1)
+    trees = [(3, (3, 2, 1))] if quick else [(3, (3, 2, 1)), (4, (2, 1, 1, 1))]
     n_lin = 200 if quick else 5000
     length = 30
     t0 = time.time()
 
-    # --- exhaustive tree: one work item per (seed, first operation)
+    # --- exhaustive trees: one work item per (tree, seed, first operation)
     items = []
-    for si, (name, smi) in enumerate(SEEDS):
-        root = _seed_molecule(name, smi)
-        rng0 = random.Random(f'{env.SEED}:{name}:')
-        firsts = [op for k in KINDS for op in choose(root, k, rng0, widths[0])]
-        items += [(si, fi, depth, widths) for fi in range(len(firsts))]
+    for depth, widths in trees:
+        for si, (name, smi) in enumerate(SEEDS):
+            root = _seed_molecule(name, smi)
+            rng0 = random.Random(f'{env.SEED}:{name}:')
+            firsts = [op for k in KINDS for op in choose(root, k, rng0, widths[0])]
+            items += [(si, fi, depth, widths) for fi in range(len(firsts))]
     rnd('b13-order').shuffle(items)
     tree = pmap(_tree_worker, items)
     t1 = time.time()
@@ -862,9 +884,10 @@ def bounded(run):
                                'history': hk},
                       native=f['detail'])
 
-    run.bound(f'tree: all sequences of operation kinds of length <= {depth} over {len(KINDS)} kinds {KINDS} on {len(SEEDS)} seed molecules '
-              f'{[s for _, s in SEEDS]}; parameters of a kind: seeded choice of {widths} instances at depth 1..{depth}; '
-              f'{n_tree} histories (prefixes) evaluated; a failing history is not extended')
+    run.bound(f'tree: all sequences of operation kinds of length <= d over {len(KINDS)} kinds {KINDS} on {len(SEEDS)} seed molecules '
+              f'{[s for _, s in SEEDS]}; (d, instances of a kind chosen by seed at depth 1..d) = {trees}; '
+              f'{n_tree} histories (prefixes) evaluated; a failing history is not extended; every leaf gets an edit probe '
+              f'(add_atom, add_bond, committed transaction, delete_bond, delete_atom), fully re-checked for 1 leaf in 8')
     run.bound(f'linear: {n_lin} seeded random histories of length {length} on corpus molecules (pach/lipophilicity.csv), alphabet + '
               f'{len(EXT_KINDS)} further public mutators on valence-valid states; {n_lin_steps} steps; all views compared every 5th step, at the end '
               f'and at random (30 %), the views just read otherwise')
